@@ -28,23 +28,45 @@ var keywordTypes = map[string]int{
 // FirstWordType classifies a statement by its first word, case-insensitively
 // (the rule C02 states); an own implementation, not the repository's.
 func FirstWordType(sql string) int {
-	w := sql
-	for i := 0; i < len(sql); i++ {
-		if sql[i] == ' ' {
-			w = sql[:i]
-			break
+	isSpace := func(c byte) bool { return c == ' ' || c == '\t' || c == '\n' || c == '\r' }
+	lowerWord := func(from int) (string, int) {
+		i := from
+		for i < len(sql) && isSpace(sql[i]) {
+			i++
+		}
+		j := i
+		for j < len(sql) && !isSpace(sql[j]) {
+			j++
+		}
+		b := []byte(sql[i:j])
+		for k, c := range b {
+			if c >= 'A' && c <= 'Z' {
+				b[k] = c + 32
+			}
+		}
+		return string(b), j
+	}
+	// the keyword ends at the first white-space character (statements are
+	// logged as the client wrote them: a tab or a line break may follow it)
+	w, end := "", 0
+	for end < len(sql) && !isSpace(sql[end]) {
+		end++
+	}
+	w, _ = lowerWord(0)
+	if len(sql) > 0 && isSpace(sql[0]) {
+		w = "" // a statement starting with white space has no keyword in first place
+	}
+	t, ok := keywordTypes[w]
+	if !ok {
+		return StUnknown
+	}
+	if t == StRollback {
+		// ROLLBACK TO [SAVEPOINT] x undoes part of an open transaction and does not end it
+		if next, _ := lowerWord(end); next == "to" {
+			return StUnknown
 		}
 	}
-	b := []byte(w)
-	for i, c := range b {
-		if c >= 'A' && c <= 'Z' {
-			b[i] = c + 32
-		}
-	}
-	if t, ok := keywordTypes[string(b)]; ok {
-		return t
-	}
-	return StUnknown
+	return t
 }
 
 // ExpCol is one expected column of a row image.
